@@ -26,7 +26,7 @@ class C14(Prop):
         "session names after deletions are not predicted by the model (stale suffixes allowed); mnemonic lookups are "
         "checked against the first curve bearing that session name",
     ]
-    quick = {"runs": 20000, "wall": 40}
+    quick = {"runs": 45000, "wall": 60}
     thorough = {"runs": 300000, "wall": 900}
     hash_sensitive = True
 
